@@ -318,6 +318,21 @@ func runC19(c *Ctx) {
 				if ss, ok := m.(*ast.SendStmt); ok && isRegChan(ss.Chan) {
 					delivers = true
 				}
+				// or through a function of the package that sends on a client channel
+				if call, ok := m.(*ast.CallExpr); ok {
+					if fn := calleeOf(info, call); fn != nil && fn.Pkg() == p.Types {
+						for _, hfd := range allFuncDecls(p) {
+							if info.Defs[hfd.Name] == types.Object(fn) {
+								ast.Inspect(hfd.Body, func(k ast.Node) bool {
+									if ss, ok := k.(*ast.SendStmt); ok && isRegChan(ss.Chan) {
+										delivers = true
+									}
+									return true
+								})
+							}
+						}
+					}
+				}
 				return true
 			})
 			c.check(delivers, "C19.R4", key+"|delivers", c.pos(rs.Pos()), "each iteration sends to the client's channel", "the broadcast loop no longer sends to the client's channel")
